@@ -1068,30 +1068,14 @@ func ColumnDefault(c *schema.Column) (cty.Value, error) {
 		case strings.ToLower(x.V) == "true", strings.ToLower(x.V) == "false":
 			return cty.BoolVal(strings.ToLower(x.V) == "true"), nil
 		case sqlx.IsLiteralNumber(x.V) && !textlike:
-			if strings.Contains(x.V, ".") {
-				f, err := strconv.ParseFloat(x.V, 64)
-				if err != nil {
-					return cty.NilVal, err
-				}
-				return cty.NumberFloatVal(f), nil
+			// Parse with arbitrary precision to avoid losing digits of
+			// decimals and of integers that do not fit in 64 bits.
+			if n, err := cty.ParseNumberVal(x.V); err == nil && !n.AsBigFloat().IsInf() {
+				return n, nil
 			}
-			switch i, err := strconv.ParseInt(x.V, 10, 64); {
-			case errors.Is(err, strconv.ErrRange):
-				u, err := strconv.ParseUint(x.V, 10, 64)
-				if err != nil {
-					return cty.NilVal, err
-				}
-				return cty.NumberUIntVal(u), nil
-			case err != nil:
-				// Not an integer literal, e.g. exponent notation (1e3).
-				f, err := strconv.ParseFloat(x.V, 64)
-				if err != nil {
-					return cty.NilVal, err
-				}
-				return cty.NumberFloatVal(f), nil
-			default:
-				return cty.NumberIntVal(i), nil
-			}
+			// Non-finite values (NaN, Infinity) cannot be
+			// expressed as HCL numbers and are kept as is.
+			return cty.StringVal(x.V), nil
 		default:
 			// Literal values (non-expressions) are returned as strings.
 			return cty.StringVal(x.V), nil
